@@ -472,7 +472,7 @@ class Interp:
             'isinstance': isinstance, 'type': type, 'slice': slice, 'getattr': getattr, 'hasattr': hasattr,
             'True': True, 'False': False, 'None': None, 'print': lambda *a, **k: None, 'str': str, 'repr': repr,
             'memoryview': memoryview, 'Ellipsis': Ellipsis, 'super': None, 'reversed': reversed, 'dict': dict,
-            'id': id, 'iter': iter, 'next': next, 'map': map, 'filter': filter, 'object': object,
+            'id': id, 'iter': iter, 'next': next, 'map': map, 'filter': filter, 'object': object, 'divmod': self.b_divmod,
         }
         for n in dir(builtins):
             o = getattr(builtins, n)
@@ -625,6 +625,16 @@ class Interp:
                 return f.fn(x)
             raise Unsupported("sqrt(sym)")
         return math.sqrt(x)
+
+    def b_divmod(self, a, b):
+        if is_sym(a) or is_sym(b):
+            return (self.binop(ast.FloorDiv, a, b) if not isinstance(a, SInt) else self.sint_floordiv(a, b)), self.binop(ast.Mod, a, b)
+        return divmod(a, b)
+
+    def sint_floordiv(self, a, b):
+        if isinstance(b, (int, np.integer)) and int(b) > 0 and (int(b) & (int(b) - 1)) == 0:
+            return a >> (int(b).bit_length() - 1)        # floored division by a power of two == arithmetic shift
+        raise Unsupported('floor division of a machine integer by a non power of two')
 
     def b_tuple(self, x=()):
         return tuple(x)
